@@ -928,8 +928,22 @@ class Variable(CanBehaveLikeAVariable[T]):
             yield from self._yield_from_cache_or_instantiate_new_values_(sources)
 
     def _generate_combinations_for_child_vars_values_(self, sources: Optional[Dict[int, HashedValue]] = None):
-        kwargs_generators = {k: v._evaluate__(sources) for k, v in self._child_vars_.items()}
-        yield from generate_combinations(kwargs_generators)
+        yield from self._bind_child_vars_values_(list(self._child_vars_.items()), sources or {}, {})
+
+    def _bind_child_vars_values_(self, child_vars: List[Tuple[str, SymbolicExpression]],
+                                 bindings: Dict[int, HashedValue], kwargs: Dict[str, Dict[int, HashedValue]]):
+        """
+        Bind the child variables one after the other, such that child variables that share a variable are evaluated
+        under the same value of that variable.
+        """
+        if not child_vars:
+            yield kwargs
+            return
+        (name, child_var), remaining = child_vars[0], child_vars[1:]
+        for child_val in child_var._evaluate__(copy(bindings)):
+            new_bindings = copy(child_val)
+            new_bindings.update(bindings)
+            yield from self._bind_child_vars_values_(remaining, new_bindings, {**kwargs, name: child_val})
 
     def _yield_from_cache_or_instantiate_new_values_(self, sources: Optional[Dict[int, HashedValue]] = None,
                                                      kwargs: Dict[str, Dict[int, HashedValue]] = None):
